@@ -24,6 +24,7 @@ import (
 	"net/url"
 	"regexp"
 	"sort"
+	"strconv"
 	"strings"
 	"unicode"
 	"unicode/utf8"
@@ -331,7 +332,7 @@ func c20Oracle(link string) c20Expect {
 		return rest[m[2*i]:m[2*i+1]], true
 	}
 	host, _ := grp(1)
-	_, hasPort := grp(2)
+	port, hasPort := grp(2)
 	path, _ := grp(3)
 	query, _ := grp(4)
 	frag, _ := grp(5)
@@ -344,6 +345,12 @@ func c20Oracle(link string) c20Expect {
 			e.either = "host:port without a scheme"
 		}
 	case ls == "http" || ls == "https":
+		if hasPort {
+			// "an optional port": a number 0..65535; an empty or larger one is not a port (error or mapping: both fine)
+			if n, err := strconv.ParseUint(strings.TrimPrefix(port, ":"), 10, 64); err != nil || n > 65535 {
+				e.either = "not a port number: " + port
+			}
+		}
 	default:
 		e.mustErr = "scheme " + ls + " is not http(s)"
 		return e
@@ -410,9 +417,6 @@ func c20JudgeResult(link, res string) string {
 	}
 	if !strings.HasPrefix(res, "err:") && !strings.HasPrefix(res, "ok:resolve:") && !strings.HasPrefix(res, "ok:join:") {
 		return fmt.Sprintf("Resolve(%q) returned neither a username, an invite nor an error: %s", link, res)
-	}
-	if res == "err:?" {
-		return "" // an error of an unknown class is still an error
 	}
 	// sanity of every ok result, structured or not
 	if strings.HasPrefix(res, "ok:") {
@@ -552,12 +556,17 @@ var c20LookAlikes = []string{"t.me.evil.com", "xt.me", "T.ME", "t.me.", "", "evi
 	// equal to an owned host only under Unicode case folding / compatibility mapping / homoglyphs
 	"tele\u017fco.pe", "TELE\u017fCO.PE", "tele%C5%BFco.pe", "\uff54.me", "t\u3002me", "t.m\u0435", "telegram.\u212ae", "t.m%65", "%74.me"}
 var c20Ports = []string{"", ":443", ":80"}
+
+// other valid ports, on both sides of the powers of two a conversion may trip over
+var c20MorePorts = []string{":0", ":1", ":8080", ":8443", ":32767", ":32768", ":40000", ":50443", ":65535", ":00443", ":255", ":256"}
 var c20QF = []string{"", "?start=abc", "#frag", "?a=1&b=%20#x%41"}
 
 // segments: usernames / tokens incl. empty, percent-escapes, Unicode, upper case, 'joinchat'
 var c20Segs = []string{"", "durov", "BotFather", "joinchat", "AAAAAEkk2WdoDrB4-Q_tok", "%41bc", "a%2Fb", "Äb", "ÉCOLEİ", "JoinChat", "a b", "%zz", "%e4%b8%ad", "%ff", "x%", "中文", "a:b", "@id1234", "*",
 	// near misses of the literal path item: longer, shorter, other case, escaped
-	"joinchats", "joinchat2", "joinchat_ru", "xjoinchat", "joincha", "JOINCHAT", "joinchat%20", "joinchat.", "%6aoinchat", "joinchat%2F"}
+	"joinchats", "joinchat2", "joinchat_ru", "xjoinchat", "joincha", "JOINCHAT", "joinchat%20", "joinchat.", "%6aoinchat", "joinchat%2F",
+	// segments spelled like the metasyntax of a path template (braces, colon, star; raw and escaped)
+	"{username}", "{token}", "%7Busername%7D", "%7btoken%7d", "{}", "{user}", ":username", "<token>", "{username"}
 
 var c20BasePaths = []string{"", "/", "/durov", "/BotFather", "/joinchat/AAAAAEkk2WdoDrB4-Q_tok", "/joinchat/", "/joinchat", "/a/b/c", "/ÄB%43", "//durov", "/durov/"}
 
@@ -616,6 +625,16 @@ func c20Gen(g *G) {
 					for _, qf := range c20QF {
 						c20EmitLink(g, sc+h+p+path+qf, true, "structured", "scheme="+sc, "port="+p)
 					}
+				}
+			}
+		}
+	}
+	// (a') every other valid port on every reserved host, both schemes and none, the two good path shapes and a bad one
+	for _, sc := range []string{"", "http://", "https://"} {
+		for _, h := range c20ReservedForGen {
+			for _, p := range c20MorePorts {
+				for _, path := range []string{"/DuRov", "/joinchat/AAAAAEkk2WdoDrB4-Q_tok", "/a/b/c", ""} {
+					c20EmitLink(g, sc+h+p+path, false, "structured", "more-ports")
 				}
 			}
 		}
@@ -705,6 +724,9 @@ func c20Gen(g *G) {
 			h = pick(c20ReservedForGen)
 		}
 		p := pick(c20Ports)
+		if r.Intn(5) == 0 {
+			p = pick(c20MorePorts)
+		}
 		if r.Intn(20) == 0 {
 			p = pick([]string{":", ":0", ":65536", ":99999999999999999999", ":44a", ":-1"})
 		}
